@@ -8,11 +8,12 @@ ID = 'C04'
 LEAN_MODULES = ['PybtexModel.Props.C04']
 THEOREMS = {
     'C04_char_classes': 'the character classes of model and rule are the interpreter\'s str.isalpha/isupper/islower tables (regenerated); kernel-checked facts the rule relies on: upper and lower case are disjoint, below U+0080 the classes are the ASCII ones, white space / braces / backslash / comma / tie / hyphen / digits are in no class, a first character that is a letter or cased is an ordinary brace-level-0 character, and the first-character clause of the rule matters only for a cased first character that is not a letter',
-    'C04_matches_spec': 'the model of Person._parse_string equals the rule Spec.split for EVERY non-empty string (no hypothesis) - RELATIVE to the shared C12 models: tokens = splitTex (split_tex_string), brace level / special character = the scanner scan; characterised separately by C12_split_* / C12_scan_*, the case rule scanner-free by C04_case_bibtex_partial / _neg',
+    'C04_matches_spec': 'the model of Person._parse_string equals the rule Spec.split for EVERY non-empty string (no hypothesis) - RELATIVE to the shared C12 models: tokens = splitTex (split_tex_string), brace level / special character = the scanner scan; characterised separately by C12_split_* / C12_scan_*; the case rule is proved equal to the scanner-free one: C04_case_bibtex_partial',
     'C04_matches_rule_any': "[lemma-level tie, subsumed by C04_matches_spec] a successful parse is splitWith (Lemmas/Names.lean, not a Spec definition) with the MODEL's is_von_name as the lower-case test",
-    'C04_case_of_token': "is_von_name = Spec.isLow on EVERY non-empty token: a cased first character decides at once, else the first brace-level-0 letter (one without case: caseless) or special character - brace level and special character being those of the shared scanner scan (Spec.tokCaseOf mirrors the model's loop); scanner-free rule: C04_case_bibtex_partial / _neg",
-    'C04_case_bibtex_partial': 'the case rule WITHOUT the scanner (bibtex.web 397-401 as one pass with a brace counter: Spec.tokenCaseBibtex): is_von_name answers by it on every non-empty token that starts with a cased character, or nests <= 100 levels and has no backslash at brace level 1 of an ORDINARY group before its case is decided (Spec.plainGroups)',
-    'C04_case_bibtex_neg': 'witness (kernel evaluation) that the proviso cannot be dropped: in {x\\y}von bibtex.web skips the ordinary group {x\\y} and v makes the token lower-case (von); pybtex\'s scanner hands the inner backslash out as a level-1 token that is_von_name takes for a special character: no case - Person("Jean {x\\y}von Last") has no von part, Person("Jean {xy}von Last") has',
+    'C04_case_of_token': "is_von_name = Spec.isLow on EVERY non-empty token: a cased first character decides at once, else the first brace-level-0 letter (one without case: caseless) or special character - read off the items of the shared scanner scan (Spec.tokCaseOf mirrors the model's loop); that this IS bibtex.web's rule stated without the scanner: C04_case_bibtex_partial",
+    'C04_case_bibtex_partial': 'the case rule WITHOUT the scanner (bibtex.web 397-401 von_token_found as one pass with a brace counter: Spec.tokenCaseBibtex; an ordinary group is skipped whatever it contains): is_von_name answers by it on EVERY non-empty token that starts with a cased character or nests <= 100 levels (after repair C04-3 no other proviso; the nesting clause cannot go: C04_overnested_case)',
+    'C04_case_bibtex_ordinary_group': 'instance (kernel evaluation; the behaviour repaired by C04-3): a backslash inside an ORDINARY group makes no special character - {x\\y}von is lower-case and Person("Jean {x\\y}von Last") has the von part {x\\y}von, like {xy}von; a group that starts with a backslash is a special character wherever it stands: {x}{\\y}von has no case, {x}{\\o}x is lower-case',
+    'C04_matches_bibtex_rule': "the WHOLE split against the scanner-free rule: the model of Person._parse_string equals Spec.splitBibtex (the rule with every token's case decided by bibtex.web's von_token_found restated without the scanner) on every non-empty name whose case-deciding tokens start with a cased character or nest <= 100 levels; tokens are still those of the shared tokeniser splitTex",
     'C04_overnested_case': 'a token nesting braces deeper than the scanner follows them (> 100 levels) has the case of its first character (upper / lower / none) in the rule, and is_von_name answers accordingly instead of raising (repair C04-1)',
     'C04_builtin_special_chars': 'a special character whose control sequence is one of BibTeX\'s built-in foreign characters has the case of the table (\\i \\j \\oe \\ae \\aa \\o \\l \\ss lower; \\OE \\AE \\AA \\O \\L upper) whatever follows, in the rule and in special_char_islower (repair C04-2)',
     'C04_total': 'parsing succeeds for EVERY non-empty string (no IndexError / ValueError / too many nested braces), reporting too many commas exactly when there are more than three comma parts',
@@ -48,10 +49,14 @@ TRUSTED = ['character classes: str.isalpha / str.isupper / str.islower of the ru
            'groups are all closed; splitTex = Spec.nameTokens is checked on those cases, not proved',
            'the case rule Spec.tokenCase sits on the shared scanner scan (C12 model of scan_bibtex_string): Spec.tokCaseOf / Spec.specialCase mirror the model\'s '
            'vonScan / specialCharIsLower over the scanner\'s tokens, incl. scan = none => caseless (pybtex\'s 100-level limit, not BibTeX\'s); the scanner is '
-           'characterised in C12 (C12_scan_lossless / _levels / _total) and the rule is restated scanner-free in Spec.tokenCaseBibtex (C04_case_bibtex_partial / _neg)']
+           'characterised in C12 (C12_scan_lossless / _levels / _total); the rule is restated scanner-free in Spec.tokenCaseBibtex and proved equal to it within the '
+           'nesting limit (C04_case_bibtex_partial; the whole split: C04_matches_bibtex_rule)',
+           'the oracle clause case_as_bibtex evaluates the case clauses with bibtex_von_token_found, a statement-by-statement transliteration of bibtex.web\'s '
+           'von_token_found in the harness (Python\'s character classes), independent of pybtex\'s scanner and of Spec.tokenCase; it is compared with the Lean '
+           'restatement Spec.tokenCaseBibtex on every case']
 ASSUMPTIONS = ['/repo carries the proposed repairs C04-1 (is_von_name: an over-nested token has no case instead of raising "too many nested '
-               'braces") and C04-2 (special_char_islower knows BibTeX\'s thirteen built-in foreign characters); on a tree without them the '
-               'check reports the two defects as violations with failing inputs',
+               'braces"), C04-2 (special_char_islower knows BibTeX\'s thirteen built-in foreign characters) and C04-3 (is_von_name: a backslash inside an '
+               'ordinary group is no special character); on a tree without them the check reports the defects as violations with failing inputs',
                'a token that nests braces deeper than pybtex\'s scanner limit (100 levels) and does not start with a cased character is '
                'caseless in the rule (Spec.tokenCase); BibTeX itself has no nesting limit (its limits are buffer sizes) and would scan on',
                'on a string with an unclosed brace group the code treats the text after the last brace as brace level 0; the property text '
@@ -170,6 +175,107 @@ def _oracle_parts(case, io, spec):
     return fails
 
 
+# ----------------------------------------------------------------------------------------------
+# "each token's case is decided by its first brace-level-0 letter or special character ... exactly as in BibTeX":
+# von_token_found of bibtex.web (sections 397-401), transliterated statement by statement.  Independent of pybtex's scanner
+# (scan_bibtex_string) and of the Lean rule Spec.tokenCase that follows that scanner.  Character classes: Python's, as recorded in
+# ASSUMPTIONS (a cased first character decides at once; a letter decides, a letter without case is not lower-case); on ASCII this
+# is bibtex.web's own test "A".."Z" -> return, "a".."z" -> von found.
+BIBTEX_LOWER_CS = ('i', 'j', 'oe', 'ae', 'aa', 'o', 'l', 'ss')
+BIBTEX_UPPER_CS = ('OE', 'AE', 'AA', 'O', 'L')
+
+
+def bibtex_von_token_found(tok):
+    n = len(tok)
+    if n and tok[0].isupper():
+        return False
+    if n and tok[0].islower():
+        return True
+    i = 0
+    level = 0                                   # nm_brace_level
+    while i < n:                                # while name_bf_ptr < name_bf_xptr
+        c = tok[i]
+        if c.isalpha():                         # a letter at brace level 0 decides
+            return c.islower()
+        elif c == '{':
+            level += 1
+            i += 1
+            if i + 2 < n and tok[i] == '\\':    # a special character: the backslash directly follows a brace opened at level 0
+                i += 1                          # skip over the backslash
+                j = i
+                while i < n and tok[i].isalpha():
+                    i += 1                      # this scans the control sequence
+                cs = tok[j:i]
+                if cs in BIBTEX_UPPER_CS:       # handle this accented or foreign character
+                    return False
+                if cs in BIBTEX_LOWER_CS:
+                    return True
+                while i < n and level > 0:
+                    c = tok[i]
+                    if c.isalpha():
+                        return c.islower()
+                    elif c == '}':
+                        level -= 1
+                    elif c == '{':
+                        level += 1
+                    i += 1
+                return False
+            else:                               # skip over name_buf stuff at nm_brace_level > 0: an ORDINARY group, whatever it contains
+                while level > 0 and i < n:
+                    if tok[i] == '}':
+                        level -= 1
+                    elif tok[i] == '{':
+                        level += 1
+                    i += 1
+        else:
+            i += 1
+    return False
+
+
+def _max_depth(s):
+    d = m = 0
+    for c in s:
+        if c == '{':
+            d += 1
+            m = max(m, d)
+        elif c == '}' and d > 0:
+            d -= 1
+    return m
+
+
+def _case_as_bibtex(s, p, spec):
+    """the clauses on the case of tokens, evaluated on the parts the implementation returned with bibtex.web's own test: no token
+    of First is lower-case and von starts with a lower-case token (First von Last form); von ends with a lower-case token; no
+    lower-case token is left in Last before its final token.  Domain: every brace group of the name is closed and no token nests
+    deeper than 100 levels (ASSUMPTIONS).  The Lean restatement Spec.tokenCaseBibtex (driver) has to give the same answers."""
+    fails = []
+    toks = p['first'] + p['middle'] + p['prelast'] + p['last']
+    if not spec.get('closed') or any(_max_depth(t) > 100 or not _balanced(t) for t in toks):
+        return fails
+    von = bibtex_von_token_found
+    lean = {t: low for t, low in spec.get('case_bibtex', [])}
+    for t in toks:
+        if t in lean and lean[t] != von(t):
+            fails.append('case_as_bibtex: the two statements of bibtex.web\'s rule disagree on the token %r: harness transliteration %r, '
+                         'Spec.tokenCaseBibtex %r' % (t, von(t), lean[t]))
+    nparts = len(spec['rule_comma_parts'])
+    where = 'Person(%r) = %r' % (s, {k: p[k] for k in PARTS})
+    if nparts <= 1:
+        for t in p['first'] + p['middle']:
+            if von(t):
+                fails.append('case_as_bibtex: %s: the token %r of the First part is lower-case by BibTeX\'s rule (von_token_found: its first '
+                             'brace-level-0 letter or special character), so the von part starts there' % (where, t))
+        if p['prelast'] and not von(p['prelast'][0]):
+            fails.append('case_as_bibtex: %s: the von part starts with %r, which is not lower-case by BibTeX\'s rule' % (where, p['prelast'][0]))
+    if p['prelast'] and not von(p['prelast'][-1]):
+        fails.append('case_as_bibtex: %s: the von part ends with %r, which is not lower-case by BibTeX\'s rule' % (where, p['prelast'][-1]))
+    for t in p['last'][:-1]:
+        if von(t):
+            fails.append('case_as_bibtex: %s: the token %r of the Last part (not its final token) is lower-case by BibTeX\'s rule, so '
+                         'the von part reaches up to it' % (where, t))
+    return fails
+
+
 def oracle(case, io, reply):
     fails = []
     s = case['s']
@@ -216,6 +322,7 @@ def oracle(case, io, reply):
                     fails.append('braces_atomic: Person(%r).%s contains %r' % (s, part, t))
     if p['bibtex_first'] != p['first'] + p['middle']:
         fails.append('tokens_preserved: bibtex_first_names of Person(%r)' % s)
+    fails.extend(_case_as_bibtex(s, p, spec))
     want = spec['person']
     got = {k: p[k] for k in PARTS}
     if got != {k: want[k] for k in got}:
@@ -404,6 +511,30 @@ def _builtin_cases():
     return out
 
 
+# groups that are ORDINARY (the brace that opens them at level 0 is not followed by a backslash) but contain a backslash further in,
+# real special characters next to them, and backslashes deeper down
+ORD_GROUPS = ['{x\\y}', '{X\\y}', '{x\\Y}', '{1\\y}', '{x \\y}', '{x\\y z}', '{xy\\}', '{x\\}', '{x\\o}', '{x\\O}', '{x\\ae}', "{x\\'e}", '{x{\\y}}', '{{\\y}}',
+              '{{\\y}x}', '{x}{\\y}', '{x}{\\Y}', '{x}{\\o}', '{x\\y}{\\Z}', '{x\\y}{\\z}', '{x\\y}{\\O}', '{}{x\\y}', '{\\y}{x\\z}', '{x\\y}{x\\z}',
+              '{-\\y}', '{\u6bdb\\y}', '{ \\y}', '{x\\\\y}', '{\\y}', '{\\Y}', '{\\y}{\\Z}']
+
+
+def _ordinary_group_cases():
+    """tokens in which a backslash stands inside an ordinary group, before / after the deciding letter, in every name position
+    where the case of a token matters (BibTeX skips an ordinary group whatever it contains)"""
+    out = []
+    heads = ['', '1', '-', 'a', 'A', '\u6bdb']
+    tails = ['von', 'Von', '', '1', 'v', 'V', '1x', '{z}v', '-\u00e9']
+    frames = ['%s Last', 'First %s Last', 'First %s von Last', 'First von %s Last', 'First %s', '%s', '%s %s Last', 'von %s Last, First',
+              '%s Last, First', '%s Last, Jr, First', 'Last, %s', 'von Last %s End, First', 'First\n%s\tLast']
+    for g in ORD_GROUPS:
+        for h in heads:
+            for t in tails:
+                tok = h + g + t
+                for f in frames:
+                    out.append(f.replace('%s', tok))
+    return out
+
+
 def gen_cases(tier, rng, info):
     cases = []
     maxtok = 3 if tier == 'quick' else 4
@@ -429,17 +560,19 @@ def gen_cases(tier, rng, info):
     ws = _ws_cases(tier)
     deep = _deep_cases()
     builtin = _builtin_cases()
-    cases.extend({'op': 'person', 's': s} for s in ws + deep + builtin)
+    ordinary = _ordinary_group_cases()
+    cases.extend({'op': 'person', 's': s} for s in ws + deep + builtin + ordinary)
     info['exhaustive'] = True
     info['scope'] = ('%d token shapes (<=%d tokens over the %d ASCII token classes; <=3 tokens over all %d classes incl. %d non-ASCII ones%s) '
                      'x comma placements x separators; %d strings: all of length <=%d over %r and over %r; %d white-space names (1..3 tokens, '
                      'independent separator per gap from %r, all %d Python white-space code points); %d names with groups nested 99..102 deep '
-                     'at every token position; %d names around the %d built-in control sequences and %d near misses' % (
+                     'at every token position; %d names around the %d built-in control sequences and %d near misses; %d names with a backslash inside '
+                     'an ordinary group (%d group shapes x heads x tails x name positions)' % (
                          nshape, maxtok, len(CLASSES), len(ALLTOKENS), len(UCLASSES),
                          '' if tier == 'quick' else '; 4 tokens over %d classes' % len(CLASSES4), nstr, maxlen, ALPHA, ALPHA_WS,
-                         len(ws), WS_MORE, len(PY_WS), len(deep), len(builtin), len(BUILTIN_CS), len(NEAR_CS)))
+                         len(ws), WS_MORE, len(PY_WS), len(deep), len(builtin), len(BUILTIN_CS), len(NEAR_CS), len(ordinary), len(ORD_GROUPS)))
     apool = list(TOKENS.values()) + ['de', 'la', 'Jr.', 'III', '{\\relax van}', 'd\'Aviano', '{', '}', '\\', '~', ',', ' ', '  ', 'and', '{{\\LaTeX}}', '\\~{n}', 'A.', 'x',
-                                     '{\\ss}', '{\\AE}x', '{\\i}', '{\\L}', '\n', '\t']
+                                     '{\\ss}', '{\\AE}x', '{\\i}', '{\\L}', '\n', '\t', '{x\\y}von', '{x\\y}Von', '{x}{\\y}von', '1{x\\o}']
     pool = apool + list(UTOKENS.values()) + UPOOL
     rseps = ['', ' ', ' ', ' ', '~', ', ', ',', '\n', '\t', '\r\n', '\u00a0', ',\n  ', '\n    ', '\x1f', '\u2028', ' ,', '\\ ']
 
@@ -493,12 +626,12 @@ def gen_cases(tier, rng, info):
 
 
 LEVEL_TEXT = ('Machine-checked proofs (Lean 4) about the function-by-function model of Person.__init__ / Person._parse_string (after the '
-              'proposed repairs C04-1 and C04-2): for EVERY non-empty string (unbounded length, any nesting) the model equals the declarative '
+              'proposed repairs C04-1, C04-2 and C04-3): for EVERY non-empty string (unbounded length, any nesting) the model equals the declarative '
               'BibTeX rule Spec.split (C04_matches_spec, no hypothesis); parsing succeeds for every string and for any six constructor '
               'arguments, and the too-many-commas report is exact (C04_total, C04_total_person); tokens are preserved in order in all comma forms '
               '(C04_tokens_preserved); the von/Last boundary and the case rule are characterised on the model output (C04_von_longest, '
               'C04_case_rule, C04_case_of_token), including over-nested tokens (C04_overnested_case) and BibTeX\'s thirteen built-in foreign '
-              'characters (C04_builtin_special_chars); explicit parts use the same tokeniser (C04_parts_same_tokenisation); every token of a '
+              'characters (C04_builtin_special_chars), and the case rule is bibtex.web\'s von_token_found stated without the scanner (C04_case_bibtex_partial); explicit parts use the same tokeniser (C04_parts_same_tokenisation); every token of a '
               'brace-balanced name is brace-balanced, i.e. braced groups are never split (C04_groups_never_split, from C04_braces_atomic and '
               'C12_split_braces). The model is tied to the code by the '
               'differential check (exhaustive token-shape scope incl. non-ASCII token classes, white space of every kind with mixed separators, '
@@ -519,7 +652,9 @@ LEVEL_NOTE = ('Trusted: Lean kernel; axioms propext/Classical.choice/Quot.sound 
               'stated from the property text) are compared with the code on every case with closed groups but not proved equal to splitTex; '
               'concrete witnesses are checked by kernel evaluation (decide +kernel). RELATIVE NOTIONS: "token" in every theorem is a token of the shared model '
               'tokeniser splitTex and "brace level 0" / "special character" in Spec.tokenCase are those of the shared scanner scan (both C12 models); C04_matches_spec and '
-              'C04_case_of_token are therefore proved modulo these two, which C12 characterises separately. The scanner-free restatement of bibtex.web\'s case rule '
-              '(Spec.tokenCaseBibtex) agrees with is_von_name except (a) beyond 100 nesting levels (C04_overnested_case) and (b) when a backslash stands at brace level 1 '
-              'inside an ordinary group before the case is decided: {x\\y}von is a von token for bibtex.web and caseless for pybtex (C04_case_bibtex_neg) - a deviation '
-              'from "as BibTeX does" that the rule Spec.tokenCase, following the scanner, does not show. C04_groups_never_split needs balanced braces.')
+              'C04_case_of_token are therefore proved modulo these two, which C12 characterises separately. For the CASE RULE the dependence is discharged: the scanner-free '
+              'restatement of bibtex.web\'s von_token_found (Spec.tokenCaseBibtex) is proved equal to Spec.tokenCase, and is_von_name proved to answer by it, on every token '
+              'within 100 nesting levels (C04_case_bibtex_partial; beyond: C04_overnested_case, pybtex\'s scanner limit). This needed the repair C04-3: before it a backslash '
+              'at brace level 1 inside an ordinary group ({x\\y}von) was taken for a special character - code, model and the scanner-following rule agreed, only the '
+              'scanner-free rule and the oracle clause case_as_bibtex (a transliteration of von_token_found in the harness) show it. The model follows the code WITH C04-3. '
+              'C04_groups_never_split needs balanced braces.')
